@@ -1,6 +1,6 @@
 ---- MODULE MC_C05 ----
 (* case generator for C05: abstract documents over the alphabet below *)
 EXTENDS DocGen
-MCAlphabet == {"P","DIV","H","T","t","INL","A","AJ","FONT","UL","OL","LI","BQ","PRE","IMG","VID","EMB","TW","FIG","FIGL","DT","LT","SKS"}
-MCRoots    == {"P","DIV","H","UL","OL","BQ","PRE","IMG","VID","EMB","TW","FIG","FIGL","DT","LT","SKS"}
+MCAlphabet == {"P","DIV","H","T","t","INL","A","AJ","FONT","UL","OL","LI","BQ","PRE","IMG","VID","EMB","TW","FIG","FIGL","DT","LT","SKS","SKF"}
+MCRoots    == {"P","DIV","H","UL","OL","BQ","PRE","IMG","VID","EMB","TW","FIG","FIGL","DT","LT","SKS","SKF"}
 ====
